@@ -53,6 +53,12 @@ inline StreamSet genStreams(Rng& r, size_t nEndpoints, size_t targetFrames)
 {
     StreamSet S;
     const bool wideIds = r.chance(1, 4);
+    if (wideIds && nEndpoints >= 2 && r.chance(1, 3))
+    {
+        auto pr = decimalAliasPair(r);
+        S.eps.push_back(pr.first);
+        S.eps.push_back(pr.second);
+    }
     while (S.eps.size() < nEndpoints)
     {
         std::pair<uint16_t, uint8_t> e{pickDevice(r), pickStream(r)};
